@@ -16,7 +16,7 @@ func init() {
 		Explanation: "Decides the structural mechanism that serializability of concurrent transactions rests on, for all schedules at once (path quantification replaces schedule quantification). " +
 			"R02a (path state machine over every function that calls Locker.Lock): on every CFG path the balance read (ResolveBalances), the execution (vm.Run) and the log hand-off happen while the account lock is held, and the lock is released (directly or by defer) only on paths that have waited for the persistence signal of the appended log (or where the append failed); every production call site of ResolveBalances/vm.Run lies in such a function. " +
 			"R02b: the Read/Write sets passed to Lock derive from ResolveResources' results of the same machine through Filter(not world) only; in ResolveResources every clause that can yield an account records it in the involved-accounts map; sources map lookup; compiler emits sources for TAKE_ALL/TAKE_ALWAYS. " +
-			"R02c: lock compatibility matrix of DefaultLocker.tryLock (shared with C15). R02d: the production commander is built with NewDefaultLocker; NoOpLocker is unreferenced in production code. R05h (shared with C05): taking a batch from the batcher never aliases the buffer later appends write into — the completion callback that releases the account lock belongs to the log that was persisted. R02h: collectionutils.FilterNot (the `not world` filter of the lock request) returns the negation of the predicate it is given. R02g: the sort.Interface the compiler orders Program.Sources with (machine.Addresses) exchanges two elements in Swap — each stored from the value the other index held before either store (a sequential assignment drops a source account from the write set).",
+			"R02c: lock compatibility matrix of DefaultLocker.tryLock (shared with C15). R02d: the production commander is built with NewDefaultLocker; NoOpLocker is unreferenced in production code. R05h (shared with C05): taking a batch from the batcher never aliases the buffer later appends write into — the completion callback that releases the account lock belongs to the log that was persisted. R15c/R15d (shared with C15): giving accounts back and re-examining the queue happen under the mutex, and a cancelled request gives back only what it was granted. R02h: collectionutils.FilterNot (the `not world` filter of the lock request) returns the negation of the predicate it is given. R02g: the sort.Interface the compiler orders Program.Sources with (machine.Addresses) exchanges two elements in Swap — each stored from the value the other index held before either store (a sequential assignment drops a source account from the write set).",
 		NotDecided:  "that lock + persistence wait + read-your-writes of the store imply serializability (argued in DESIGN.md, not checked); PostgreSQL isolation; the arithmetic of balances.",
 		Trusted:     []string{"sync.Mutex / channel / defer semantics", "the store's balance read observes every log whose InsertLogs has returned"},
 		Assumptions: []string{"callbacks given to Batcher.Append run only after a successful InsertLogs (checked under C06 R06c)"},
@@ -27,6 +27,7 @@ func init() {
 		ruleFilterNotNegates(c, "R02h")
 		ruleR02b(c)
 		ruleR15b(c, "R02c")
+		ruleR15cd(c)
 		ruleR02d(c)
 	})
 }
